@@ -107,6 +107,116 @@ def build(quiet=False):
         lock.close()
 
 
+FUZZBIN = os.path.join(BUILD, "checks.fuzz.test")
+
+
+def build_fuzz(target):
+    """Build the checks with native-fuzzing instrumentation (thorough tier of C14 only)."""
+    lock = open(os.path.join(BUILD, ".lock"), "w")
+    fcntl.flock(lock, fcntl.LOCK_EX)
+    try:
+        modpath, ov = gen_overlay()
+        tmpbin = FUZZBIN + ".new.%d" % os.getpid()
+        cmd = ["go", "test", "-c", "-fuzz=" + target, "-o", tmpbin, "-modfile=" + modpath, "-overlay=" + ov,
+               "-tags", "verif", "-vet=off", "./" + CHECKS_PKG]
+        p = subprocess.run(cmd, cwd=REPO, env=go_env(), stdout=subprocess.PIPE, stderr=subprocess.STDOUT, text=True)
+        if p.returncode != 0:
+            log("FUZZ BUILD FAILED (%s):\n%s" % (" ".join(cmd), p.stdout))
+            return False
+        os.replace(tmpbin, FUZZBIN)
+        return True
+    finally:
+        fcntl.flock(lock, fcntl.LOCK_UN)
+        lock.close()
+
+
+def go_unquote(q):
+    """Decode a Go interpreted string literal (as written by testing's corpus files) to bytes."""
+    assert q[0] == '"' and q[-1] == '"'
+    out = bytearray()
+    i, q = 0, q[1:-1]
+    simple = {"a": 7, "b": 8, "f": 12, "n": 10, "r": 13, "t": 9, "v": 11, "\\": 92, "'": 39, '"': 34}
+    while i < len(q):
+        c = q[i]
+        if c != "\\":
+            out += c.encode("utf-8")
+            i += 1
+            continue
+        e = q[i + 1]
+        if e in simple:
+            out.append(simple[e]); i += 2
+        elif e == "x":
+            out.append(int(q[i + 2:i + 4], 16)); i += 4
+        elif e == "u":
+            out += chr(int(q[i + 2:i + 6], 16)).encode("utf-8"); i += 6
+        elif e == "U":
+            out += chr(int(q[i + 2:i + 10], 16)).encode("utf-8"); i += 10
+        elif e in "01234567":
+            out.append(int(q[i + 1:i + 4], 8)); i += 4
+        else:
+            raise ValueError("bad escape in corpus file: \\" + e)
+    return bytes(out)
+
+
+def run_native_fuzz(prop, target, seconds, outdir, replay_kind, make_case):
+    """Run `target` for a wall-clock budget. Returns (info dict, list of replay paths of crashers, infra messages)."""
+    import base64, re
+    info = {"target": target, "budget_s": seconds, "workers": NCPU}
+    if not build_fuzz(target):
+        return info, [], ["native fuzz binary did not build"]
+    cwd = os.path.join(outdir, "fuzzcwd")
+    corpus = os.path.join(cwd, "testdata", "fuzz", target)
+    os.makedirs(corpus, exist_ok=True)
+    cache = os.path.join(outdir, "fuzzcache")
+    os.makedirs(cache, exist_ok=True)
+    binpath = os.path.join(outdir, "fuzz.test")
+    shutil.copyfile(FUZZBIN, binpath)
+    os.chmod(binpath, 0o755)
+    env = dict(os.environ)
+    env["TMPDIR"] = os.path.join(outdir, "fuzztmp")
+    os.makedirs(env["TMPDIR"], exist_ok=True)
+    cmd = [binpath, "-test.run", "^$", "-test.fuzz", "^%s$" % target, "-test.fuzztime", "%ds" % seconds,
+           "-test.fuzzcachedir", cache, "-test.parallel", str(NCPU), "-test.timeout", "0"]
+    t0 = time.time()
+    try:
+        p = subprocess.run(cmd, cwd=cwd, env=env, stdout=subprocess.PIPE, stderr=subprocess.STDOUT, text=True, timeout=seconds + 600)
+        out, rc = p.stdout, p.returncode
+    except subprocess.TimeoutExpired as e:
+        return info, [], ["native fuzzing did not stop %ds after its budget" % 600]
+    info["wall_s"] = round(time.time() - t0, 1)
+    m = re.findall(r"fuzz: elapsed: \S+, execs: (\d+) \((\d+)/sec\), new interesting: (\d+) \(total: (\d+)\)", out)
+    if m:
+        info["execs"], info["new_interesting"], info["corpus_total"] = int(m[-1][0]), int(m[-1][2]), int(m[-1][3])
+    bl = re.findall(r"gathering baseline coverage: (\d+)/(\d+) completed", out)
+    if bl:
+        info["seed_inputs"] = int(bl[-1][1])
+    crashers = []
+    infra = []
+    files = sorted(os.listdir(corpus))
+    for name in files:
+        try:
+            lines = open(os.path.join(corpus, name), encoding="utf-8").read().split("\n")
+            assert lines[0].startswith("go test fuzz v1")
+            mm = re.match(r"^\[\]byte\((.*)\)$", lines[1])
+            data = go_unquote(mm.group(1))
+        except Exception as e:  # noqa
+            infra.append("cannot decode fuzz crasher %s: %s" % (name, e))
+            continue
+        rf = {"property": prop, "kind": replay_kind, "cause": "native-fuzz", "message": "crasher %s of %s" % (name, target),
+              "case": make_case(base64.b64encode(data).decode())}
+        os.makedirs(os.path.join(VIOL, prop), exist_ok=True)
+        rp = os.path.join(VIOL, prop, "%s-fuzz-%s.json" % (prop, name[:16]))
+        with open(rp, "w") as f:
+            json.dump(rf, f, indent=1)
+        crashers.append(rp)
+    info["crashers"] = len(crashers)
+    if rc != 0 and not crashers and not infra:
+        infra.append("native fuzzing exited %s without a crasher file:\n%s" % (rc, "\n".join(out.splitlines()[-15:])))
+    if "execs" not in info and not crashers:
+        infra.append("native fuzzing reported no executions:\n%s" % "\n".join(out.splitlines()[-15:]))
+    return info, crashers, infra
+
+
 def load_known():
     if not os.path.exists(KNOWN):
         return []
@@ -316,6 +426,18 @@ def _check(prop, tier, seed, nshards, binpath, outdir, evpath, t0):
             else:
                 violations.append(v)
 
+    # ---- native (coverage-guided) fuzzing: thorough tier only -------------
+    native = NATIVE_FUZZ.get(prop)
+    if native and tier == "thorough" and not violations:
+        secs = int(os.environ.get("VERIF_FUZZ_SECONDS", "") or native["seconds"])
+        info, crashers, finfra = run_native_fuzz(prop, native["target"], secs, outdir, native["kind"], native["case"])
+        extra["native_fuzz"] = info
+        infra.extend(finfra)
+        for rp in crashers:
+            violations.append({"campaign": "native-fuzz", "cause": "native-fuzz:" + os.path.basename(rp), "replay": rp, "message": "crasher found by go native fuzzing"})
+        evals += info.get("execs", 0)
+        notes.append("native fuzzing (%s, %d workers, %ds wall-clock budget) contributed %d executions; they are counted in evaluations but not in distinct_nontrivial" % (native["target"], NCPU, secs, info.get("execs", 0)))
+
     # ---- confirm violations by replaying the saved case (bypasses rapid) ----
     confirmed = []
     # one representative per (campaign, cause): the one with the smallest replay file
@@ -417,6 +539,10 @@ def _check(prop, tier, seed, nshards, binpath, outdir, evpath, t0):
         return 2
     return 0
 
+
+NATIVE_FUZZ = {
+    "C14": {"target": "FuzzC14Text", "seconds": 300, "kind": "text", "case": lambda b64: {"text": b64, "how": "fuzz"}},
+}
 
 COMMON_ASSUMPTIONS = [
     "harness code is injected with go build -overlay/-modfile (tag verif); /repo sources are compiled as they are in the working tree",
